@@ -43,11 +43,15 @@ MENU = [
     ("delayed", "bag", "delayed"), ("array", "delayed", "array"), ("bag", "array", "bag"), ("delayed", "array", "bag"),
     ("bag", "delayed", "array"), ("array", "bag", "delayed"), ("delayed", "item", "delayed"), ("item", "delayed", "bag"),
     ("array", "item", "delayed"), ("delayed", "bag", "array"), ("bag", "delayed", "item"),
+    # Delayed objects with a declared length (delayed(f, nout=n)(...)), nout = 0..3
+    ("dnout2", "bag", "dnout3"), ("array", "dnout1", "delayed"), ("dnout0", "item", "dnout2"), ("delayed", "dnout3", "array"),
+    ("dnout1", "dnout2", "dnout3"), ("bag", "dnout0", "array"), ("dnout3", "array", "dnout1"), ("dnout2", "delayed", "bag"),
 ]
 FRAME_MENU = [("delayed", "frame", "delayed"), ("frame", "array", "delayed"), ("bag", "delayed", "frame"), ("frame", "delayed", "frame"),
               ("array", "frame", "array")]
 LOWERING_MENU = [("delayed", "frame_rep", "array"), ("frame_rep", "delayed", "bag")]
-GROUP = {"delayed": "D", "bag": "B", "item": "B", "array": "A", "frame": "F", "frame_rep": "F"}
+GROUP = {"delayed": "D", "dnout0": "D", "dnout1": "D", "dnout2": "D", "dnout3": "D", "bag": "B", "item": "B", "array": "A",
+         "frame": "F", "frame_rep": "F"}
 OPS = ("compute", "persist", "optimize")
 
 _ENVS = {}
@@ -129,8 +133,8 @@ def _states(s):
     return dict(s)
 
 
-def judge(want, obs):
-    """Python twin of CollectionsTrace!Bad: first failing clause or None."""
+def judge(want, obs, mds):
+    """Python twin of CollectionsTrace!Bad: first failing clause or None.  mds: metadata strings of the collections."""
     if obs["raised"]:
         return "UnexpectedRaise"
     got = obs["res"]
@@ -142,11 +146,20 @@ def judge(want, obs):
         return "State"
     for g in got:
         for lf in leaves(g):
-            if lf["k"] == "broken" or (lf["k"] == "lazy" and not (lf["ty"] and lf["kshape"] and lf["meta"])):
+            if lf["k"] == "broken" or (lf["k"] == "lazy" and not (1 <= lf["c"] <= len(mds) and lf["md"] == mds[lf["c"] - 1])):
                 return "Lazy"
     if [canon(g) for g in got] != [canon(w) for w in want]:
         return "Values"
     return None
+
+
+def lazy_detail(obs, mds):
+    """The first returned collection whose type / keys-shape / metadata differs from the original's."""
+    for g in obs["res"]:
+        for lf in leaves(g):
+            if lf["k"] == "lazy" and not (1 <= lf["c"] <= len(mds) and lf["md"] == mds[lf["c"] - 1]):
+                return " - returned %s, original %s" % (lf["md"], mds[lf["c"] - 1] if 1 <= lf["c"] <= len(mds) else "?")
+    return ""
 
 
 def interleaved(found_kinds):
@@ -194,7 +207,7 @@ def _work(item):
     out = []
     for op in OPS:
         want = case["compute"] if op == "compute" else case["persist"]
-        cl = judge(want, res[op])
+        cl = judge(want, res[op], env_for(kinds).mds)
         out.append((op, cl, res[op] if cl else None))
     return out
 
@@ -259,7 +272,7 @@ def _record(item):
     for op in OPS:
         obs = dict(res[op])
         msg = obs.pop("msg")
-        out.append({"id": "r%d-%s" % (i, op), "op": op, "args": case["args"], "traverse": case["traverse"],
+        out.append({"id": "r%d-%s" % (i, op), "op": op, "args": case["args"], "traverse": case["traverse"], "colls": env_for(kinds).mds,
                     "obs": obs, "kinds": list(kinds), "found": case["found"], "variant": [sched, og], "msg": msg})
     return out
 
@@ -297,8 +310,9 @@ def replay_cases(ctx, cases, rng, frame_share, thorough=False):
                 ctx.violation(classify(case, kinds, op, cl, obs),
                               "dask.%s(%s, traverse=%s) with kinds %s: %s%s" % (op, ", ".join(show(a) for a in case["args"]), case["traverse"],
                                                                               "/".join(kinds), cl,
-                                                                              (" - returned " + ", ".join(show(x) for x in obs["res"])) if not obs["raised"]
-                                                                              else " - %s: %s" % (obs["raised"], obs["msg"][:100])),
+                                                                              ((" - returned " + ", ".join(show(x) for x in obs["res"])) if not obs["raised"]
+                                                                               else " - %s: %s" % (obs["raised"], obs["msg"][:100]))
+                                                                              + (lazy_detail(obs, env_for(kinds).mds) if cl == "Lazy" else "")),
                               {"kind": "mc", "case": case, "kinds": list(kinds), "variant": [sched, og], "op": op, "observed": obs})
     if items:
         mid = items[len(items) // 2]
@@ -316,7 +330,7 @@ def record_cases(ctx, todo):
     cases = {"r%d" % i: t[0] for i, t in enumerate(todo)}
     for lo in range(0, len(recs), 6000):
         part = recs[lo:lo + 6000]
-        rej = ctx.tlc_validate(spec, [{k: r[k] for k in ("id", "op", "args", "traverse", "obs")} for r in part], cfg, timeout=1500)
+        rej = ctx.tlc_validate(spec, [{k: r[k] for k in ("id", "op", "args", "traverse", "colls", "obs")} for r in part], cfg, timeout=1500)
         byid = {r["id"]: r for r in part}
         for r in part:
             ctx.count((r["op"], r["args"], r["traverse"], r["kinds"], r["variant"]), bool(r["found"]))
@@ -344,7 +358,7 @@ def run(ctx):
     for consts in ctx.pick([{"RootW": 3, "SibW": 1, "Deep": False}],
                            [{"RootW": 3, "SibW": 2, "Deep": False}, {"RootW": 3, "SibW": 0, "Deep": True}]):
         cases += enumerate_cases(ctx, consts)
-    cap = ctx.pick(3500, 30000)
+    cap = ctx.pick(1500, 30000)
     sampled = len(cases) > cap
     if sampled:
         # keep every flat argument tuple (the orderings of the collections), sample the nested ones
@@ -353,7 +367,7 @@ def run(ctx):
         cases = flat + rng.sample(rest, max(0, cap - len(flat)))
     replay_cases(ctx, cases, rng, frame_share=ctx.pick(0.15, 0.3), thorough=thorough)
     todo = []
-    for _ in range(ctx.pick(500, 3000)):
+    for _ in range(ctx.pick(250, 3000)):
         case, kinds = random_case(rng, frames=rng.random() < ctx.pick(0.2, 0.35))
         todo.append((case, kinds, "threads" if rng.random() < 0.2 else "sync", rng.random() < 0.8))
     record_cases(ctx, todo)
@@ -369,7 +383,7 @@ def replay(ctx, obj):
     if c["kind"] == "mc":
         case, kinds, (sched, og), op = c["case"], c["kinds"], c["variant"], c["op"]
         obs = run_case(case, kinds, sched, og, ops=(op,))[op]
-        cl = judge(case["compute"] if op == "compute" else case["persist"], obs)
+        cl = judge(case["compute"] if op == "compute" else case["persist"], obs, env_for(kinds).mds)
         print("dask.%s(%s, traverse=%s) kinds=%s\nexpected: %s\nobserved: %s %s\nclause: %s"
               % (op, ", ".join(show(a) for a in case["args"]), case["traverse"], kinds,
                  [show(a) for a in (case["compute"] if op == "compute" else case["persist"])], [show(a) for a in obs["res"]], obs["raised"] + " " + obs["msg"], cl))
@@ -378,7 +392,7 @@ def replay(ctx, obj):
     case = {"args": r["args"], "traverse": r["traverse"], "found": r["found"]}
     recs = [x for x in _record((0, case, r["kinds"], r["variant"][0], r["variant"][1])) if x["op"] == r["op"]]
     spec, cfg = ctx.model(ctx.spec("graph", "CollectionsTrace.tla"), {})
-    rej = ctx.tlc_validate(spec, [{k: x[k] for k in ("id", "op", "args", "traverse", "obs")} for x in recs], cfg)
+    rej = ctx.tlc_validate(spec, [{k: x[k] for k in ("id", "op", "args", "traverse", "colls", "obs")} for x in recs], cfg)
     print("dask.%s(%s) kinds=%s\nobserved: %s %s\nrejected: %s" % (r["op"], ", ".join(show(a) for a in r["args"]), r["kinds"],
                                                                  [show(a) for a in recs[0]["obs"]["res"]], recs[0]["obs"]["raised"], rej))
     return bool(rej)
@@ -439,6 +453,19 @@ def selftest(ctx):
             ok &= attempt("persist-results-reversed")
         finally:
             dask.persist = orig_persist
+    # mutant 4b: a rebuilt Delayed forgets its declared length (len() and tuple unpacking are lost by persist / optimize)
+    import dask.delayed  # noqa: F401
+    DD = sys.modules["dask.delayed"]
+    orig_rebuild = DD.Delayed._rebuild
+
+    def rebuild_without_length(self, dsk, *, rename=None):
+        out = orig_rebuild(self, dsk, rename=rename)
+        return DD.Delayed(out.key, out.dask, None, layer=out._layer)
+    DD.Delayed._rebuild = rebuild_without_length
+    try:
+        ok &= attempt("rebuilt-delayed-loses-its-length")
+    finally:
+        DD.Delayed._rebuild = orig_rebuild
     # mutant 5: equal-token collections are not de-duplicated consistently (second occurrence points one slot too far)
     with source_mutant(B, "unpack_collections", "tok, getitem, TaskRef(collections_token), len(collections)\n",
                        "tok, getitem, TaskRef(collections_token), max(len(collections) - 1, 0)\n"):
@@ -448,7 +475,7 @@ def selftest(ctx):
     while case is None or len(case["found"]) < 2 or not case["traverse"] or interleaved([kinds[c - 1] for c in case["found"]]):
         case, kinds = random_case(rnd, frames=False)
     recs = _record((0, case, kinds, "sync", True))
-    base = {k: recs[0][k] for k in ("id", "op", "args", "traverse", "obs")}
+    base = {k: recs[0][k] for k in ("id", "op", "args", "traverse", "colls", "obs")}
     bad1 = copy.deepcopy(base)
     bad1["id"] = "swapped"
     vals = [lf for t in bad1["obs"]["res"] for lf in leaves(t) if lf["k"] == "val"]
